@@ -21,8 +21,8 @@ namespace QV
 namespace GateWire
 open QV.C14
 
-/-- `Complex64` with both components stored unboxed (one allocation per value; `C64 = Float × Float`
-costs three).  The formulas are num-complex 0.4.6's, the same ones `QV.Shared.C64` copies. -/
+/-- `Complex64` with both components stored unboxed (one allocation per value; `CFloat = Float × Float`
+costs three).  The formulas are num-complex 0.4.6's, the same ones `QV.Shared.CFloat` copies. -/
 structure C64 where
   re : Float
   im : Float
